@@ -274,8 +274,21 @@ class MiniEval:
     if isinstance(t, ast.Name):
       env[t.id] = v
     elif isinstance(t, (ast.Tuple, ast.List)):
-      vals = self.iterate(v)
-      if len(vals) != len(t.elts):
+      vals = list(self.iterate(v))
+      stars = [i for i, x in enumerate(t.elts) if isinstance(x, ast.Starred)]
+      if len(stars) == 1:
+        # a, b, *rest = values
+        i = stars[0]
+        after = len(t.elts) - i - 1
+        if len(vals) < len(t.elts) - 1:
+          raise Raised()
+        for x, y in zip(t.elts[:i], vals[:i]):
+          self.bind(x, y, env, f, depth)
+        self.bind(t.elts[i].value, vals[i:len(vals) - after], env, f, depth)
+        for x, y in zip(t.elts[i + 1:], vals[len(vals) - after:] if after else []):
+          self.bind(x, y, env, f, depth)
+        return
+      if stars or len(vals) != len(t.elts):
         raise Raised()
       for x, y in zip(t.elts, vals):
         self.bind(x, y, env, f, depth)
@@ -379,10 +392,13 @@ class MiniEval:
       if r is None and e.id in ("str", "int", "float", "bool", "list", "tuple", "dict", "set", "bytes", "Fraction"):
         return self._BUILTIN_TYPES[e.id]       # the type object itself (`type(x) is str`)
       try:
-        return self.ce.ev(f.module, e, f.cls)
+        v_ = self.ce.ev(f.module, e, f.cls)
+        if isinstance(v_, Sym) and isinstance(r, tuple) and r and r[0] == "assign" and isinstance(r[2], ast.Call):
+          raise NotConst("symbolic")         # a module-level value built by a call: built below, in module context
+        return v_
       except NotConst:
         # a module-level table whose rows hold lambdas / references to functions: built here, once, in module context
-        if isinstance(r, tuple) and r and r[0] == "assign" and isinstance(r[2], (ast.Tuple, ast.List, ast.Dict, ast.ListComp, ast.DictComp)) and depth < self.MAX_DEPTH:
+        if isinstance(r, tuple) and r and r[0] == "assign" and isinstance(r[2], (ast.Tuple, ast.List, ast.Dict, ast.ListComp, ast.DictComp, ast.Call, ast.Set, ast.SetComp)) and depth < self.MAX_DEPTH:
           cache = self.__dict__.setdefault("_module_tables", {})
           key = (r[1].name, e.id)
           if key not in cache:
@@ -871,7 +887,7 @@ class MiniEval:
       return getattr(_html, fn.attr)(*args, **kwargs)
     # unbound methods of str and the pure functions of unicodedata, applied to constants
     if isinstance(fn, ast.Attribute) and isinstance(fn.value, ast.Name) and fn.value.id in ("str", "unicodedata") and fn.value.id not in env:
-      if fn.value.id == "str" and hasattr(str, fn.attr) and not fn.attr.startswith("_") and fn.attr not in ("format_map", "maketrans"):
+      if fn.value.id == "str" and hasattr(str, fn.attr) and not fn.attr.startswith("_") and fn.attr not in ("format_map",):
         try:
           return getattr(str, fn.attr)(*args)
         except (TypeError, ValueError):
@@ -887,6 +903,10 @@ class MiniEval:
         and f.cls is not None and "super" not in self.opaque:
       this_ = env.get("self", env.get("cls"))
       if isinstance(this_, Node):
+        if this_.kind in self.node_classes:
+          for c_ in self.ix.mro(f.cls)[1:]:
+            if fn.attr in c_.methods:
+              return self.call(c_.methods[fn.attr], [this_] + list(args), kwargs, {}, depth + 1)
         return self.node_call(this_, fn.attr, args, kwargs, f, depth)      # the base class's effect on a sample node
       for c_ in self.ix.mro(f.cls)[1:]:
         if fn.attr in c_.methods:
@@ -946,6 +966,11 @@ class MiniEval:
             except (TypeError, ValueError, IndexError, KeyError):
               raise Raised()
           raise NotConst(f"str.{fn.attr}")
+        if isinstance(recv, (Fraction, int, float)) and not isinstance(recv, bool) and fn.attr in ("limit_denominator", "as_integer_ratio", "is_integer", "bit_length", "conjugate", "__floor__", "__ceil__", "__round__", "__trunc__"):
+          try:
+            return getattr(recv, fn.attr)(*args)
+          except (TypeError, ValueError, ZeroDivisionError, AttributeError):
+            raise Raised()
         if isinstance(recv, set):
           if fn.attr in ("add", "discard", "update", "remove"):
             try:
